@@ -157,7 +157,7 @@ Fixpoint validate_raise (f : nat) (o : wopts) (e : env) (s : schema) (ov : optio
               if disable_tuple o then rany_branch (validate_raise f o e) v bs
               else match l with
                    | [name; v'] => rhinted (validate_raise f o e) name v' bs
-                   | _ => VErr
+                   | _ => VRaised                       (* len(datum) != 2: return False; _validate raises *)
                    end
           | _ => rany_branch (validate_raise f o e) v bs
           end
@@ -231,9 +231,11 @@ Definition shared_of (e : env) (v : pyval) (c : schema) : Z :=
 (** ** "validate accepts => the writer encodes": the side condition, clause by clause.
     [wdom n o e s v]: (1) every number under a float/double type converts (float(int) does not overflow,
     and narrowing to binary32 does not overflow under "float"); (2) every field that is absent without a
-    default has a type whose spelling contains "null" the way write_record tests it -- this excludes F9;
+    default has a type write_record's _accepts_null recognises (null, dict-form null, a union with such a branch);
     (3) at every union the validator gives a verdict (no foreign exception, enough fuel [n]) on every branch
-    the search may try.  Under a union the conditions are required for every branch. *)
+    the search may try, and a "-type" entry of the datum names every branch the datum validates against (a dict
+    carrying "-type": "B" that validates only as a map is accepted by validate but the writer looks for record B).
+    Under a union the conditions are required for every branch. *)
 Definition dbl_ok (v : pyval) : Prop := forall z, v = PInt z -> exists d, z2d z = Ok d.
 Definition flt_ok (v : pyval) : Prop := forall b, to_double v = WOk b -> exists x, d2s b = Ok x.
 
@@ -266,9 +268,9 @@ Fixpoint wdom (n : nat) (o : wopts) (e : env) (s : schema) (v : pyval) {struct n
         match v with
         | PTuple l =>
             if disable_tuple o
-            then Forall (fun c => (exists b, validate n o e c (Some v) = Ok b) /\ wdom n o e c v) bs
+            then Forall (fun c => (exists b, validate n o e c (Some v) = Ok b /\ (b = true -> hint_pass e v c = true)) /\ wdom n o e c v) bs
             else forall name x b, l = [PStr name; x] -> first_named name bs = Some b -> wdom n o e b x
-        | _ => Forall (fun c => (exists b, validate n o e c (Some v) = Ok b) /\ wdom n o e c v) bs
+        | _ => Forall (fun c => (exists b, validate n o e c (Some v) = Ok b /\ (b = true -> hint_pass e v c = true)) /\ wdom n o e c v) bs
         end
     | SRef nm => forall s', lookup e nm = Some s' -> wdom n o e s' v
     | SAnnot _ s' => wdom n o e s' v
